@@ -3,6 +3,7 @@ package gsx
 import (
 	"fmt"
 	"go/types"
+	"strings"
 
 	"golang.org/x/tools/go/ssa"
 )
@@ -21,6 +22,10 @@ type G struct {
 	draining bool
 	frame    *frame
 	depth    int
+	syncFile string // last synchronisation operation reached (repository source position)
+	syncLine int
+	syncOcc  int
+	pendingDelay int // to be applied at the next synchronisation operation reached
 }
 
 type syncState struct {
@@ -200,6 +205,7 @@ func (m *Machine) block(ready func() bool, what string) {
 
 // schedPoint is a potential preemption point (bounded by PreemptBound).
 func (m *Machine) schedPoint() {
+	m.noteSync()
 	if m.PreemptBound <= m.preempts {
 		return
 	}
@@ -212,12 +218,60 @@ func (m *Machine) schedPoint() {
 		return
 	}
 	m.preempts++
+	m.addDelay(m.cur, 150)
 	next := others[k-1]
 	if !next.started {
 		m.gwg.Add(1)
 	}
 	m.cur.waitOn = nil
 	m.transfer(next, true)
+}
+
+// noteSync records the repository source position of the synchronisation operation the
+// current goroutine is about to perform, and how many times that position was reached.
+func (m *Machine) noteSync() {
+	if m.cur == nil {
+		return
+	}
+	pos := m.curPos
+	for f := m.curFrame; ; f = f.caller {
+		if pos.IsValid() {
+			p := m.P.Fset.Position(pos)
+			if strings.HasPrefix(p.Filename, "/repo/") && !strings.Contains(p.Filename, "zz_verif_nd.go") {
+				if m.posCount == nil {
+					m.posCount = map[string]int{}
+				}
+				k := fmt.Sprintf("%s:%d", p.Filename, p.Line)
+				m.posCount[k]++
+				m.cur.syncFile, m.cur.syncLine, m.cur.syncOcc = p.Filename, p.Line, m.posCount[k]
+				if m.cur.pendingDelay > 0 {
+					m.addDelay(m.cur, m.cur.pendingDelay)
+					m.cur.pendingDelay = 0
+				}
+				return
+			}
+		}
+		if f == nil {
+			break
+		}
+		pos = f.callPos
+	}
+	m.cur.syncFile, m.cur.syncLine, m.cur.syncOcc = "", 0, 0
+}
+
+func (m *Machine) addDelay(g *G, ms int) {
+	if g == nil || g.syncFile == "" {
+		return
+	}
+	for i, d := range m.delays {
+		if d.File == g.syncFile && d.Line == g.syncLine && d.Occ == g.syncOcc {
+			if ms > d.Ms {
+				m.delays[i].Ms = ms
+			}
+			return
+		}
+	}
+	m.delays = append(m.delays, DelaySite{File: g.syncFile, Line: g.syncLine, Occ: g.syncOcc, Ms: ms})
 }
 
 // drain lets other goroutines run until they block (called when main finishes).
@@ -299,6 +353,7 @@ func (m *Machine) chanSend(cv, v Value) {
 		}
 		m.touchChan(ch)
 		ch.Buf = append(append([]Value{}, ch.Buf...), copyVal(v))
+		ch.lastFile, ch.lastLine, ch.lastOcc = m.cur.syncFile, m.cur.syncLine, m.cur.syncOcc
 		return
 	}
 	w := &chanWaiter{g: m.cur, v: copyVal(v)}
@@ -420,6 +475,36 @@ func (m *Machine) selectOp(fr *frame, in *ssa.Select) Value {
 			pick = rd[k]
 		} else {
 			pick = timerCases[k-len(rd)]
+			if m.timerRace {
+				// natively: everybody who could have run before the timer has to be held back past it
+				ms := 1500
+				if d := states[pick].ch.Timer.d; d != nil && d.IsConst() && d.C/1000000 < 5000 {
+					ms = int(d.C/1000000) + 400
+				}
+				for _, g := range m.runnableOthers() {
+					if !g.started || g.waitOn != nil {
+						// not yet running, or inside an operation that has become ready: natively it
+						// is past that point already; hold it back at its next operation
+						if ms > g.pendingDelay {
+							g.pendingDelay = ms
+						}
+					} else {
+						m.addDelay(g, ms)
+					}
+				}
+				// ... and whoever made another case ready
+				for _, i := range rd {
+					s := states[i]
+					if s.dir != types.RecvOnly || s.ch == nil {
+						continue
+					}
+					if len(s.ch.Buf) > 0 {
+						m.addDelay(&G{syncFile: s.ch.lastFile, syncLine: s.ch.lastLine, syncOcc: s.ch.lastOcc}, ms)
+					} else if len(s.ch.sendq) > 0 {
+						m.addDelay(s.ch.sendq[0].g, ms)
+					}
+				}
+			}
 			m.fireTimer(states[pick].ch.Timer)
 		}
 	}
